@@ -114,7 +114,20 @@ def strategy(tier):
         if ndecl and draw(convgen.INT10) < 4:
             i = draw(synth._int(0, ndecl - 1))
             pos = draw(synth._int(i + 1, len(steps)))
-            steps.insert(pos, ["redecl", i, draw(st.sampled_from([[7, 1], [1, 2], [3, 1]]))])
+            # [1, 1]: the very same equivalence stated again, its number written in the other numeric
+            # type (Decimal('8') for 8.0): nothing about the values changes, the type of results may
+            factor = draw(st.sampled_from([[7, 1], [1, 2], [3, 1], [1, 1], [1, 1]]))
+            if draw(convgen.INT10) < 5:
+                pos = len(steps)  # the re-declaration is the last declaration of the history
+            steps.insert(pos, ["redecl", i, factor])
+            flat0 = [(f, e) for f in spec["fams"] for e in f["edges"]]
+            if factor == [1, 1] and i < len(flat0) and draw(convgen.INT10) < 7:
+                # make the restated ratio a number that float and Decimal hold alike (8, 0.25, 2.5)
+                f, e = flat0[i]
+                if e[0] != e[1] and sum(1 for x in f["edges"] if e[0] in (x[0], x[1])) == 1:
+                    R = draw(st.sampled_from([[8, 1], [2, 1], [1, 4], [5, 2], [1, 2], [4, 1]]))
+                    f["sizes"][e[0]] = [f["sizes"][e[1]][0] * R[0], f["sizes"][e[1]][1] * R[1]]
+                    e[2], e[4] = "", False
             # half of the time the history asks about exactly the re-declared pair: before the
             # re-declaration (old ratio), and as the final query (new ratio)
             flat = [(f["dim"][0].upper(), e) for f in spec["fams"] for e in f["edges"]]
@@ -364,8 +377,79 @@ def _linked_clause(out, sw, q, rec, edges, when):
             out.fail(f"C08:linked-but-not-found:{when}", f"{s[0][1]} and {d[0][1]} are linked by the declarations made so far, but in_unit raised ConversionNotFound ({when} the history)")
 
 
+def enumerate_cases(tier):
+    """an equivalence stated twice with the same number written in two numeric types (8.0 then
+    Decimal('8'), 2.5 then Decimal('2.5'), 3 then 3.0 ...), with and without a conversion over that
+    pair in between; a second, unrelated declaration may follow the restatement"""
+    out = []
+    for R in ("8", "0.25", "2.5", "3", "0.1", "1024"):
+        for first, second in (("float", "dec"), ("dec", "float"), ("int", "dec"), ("dec", "int"), ("float", "int")):
+            if "int" in (first, second) and "." in R:
+                continue
+            for mag in ({"t": "float", "v": 0.1}, {"t": "int", "v": 3}, {"t": "dec", "v": "0.7"}):
+                for kind in ("in_unit", "add", "m_add"):
+                    for tail in (False, True):
+                        out.append({"restate": R, "types": [first, second], "mag": mag, "kind": kind, "unrelated_after": tail})
+    return out
+
+
+def _run_restated(case, out):
+    from decimal import Decimal
+
+    from ..world import World
+
+    def num(t, text):
+        return {"float": float, "dec": Decimal, "int": lambda x: int(float(x))}[t](text)
+
+    def history(query_between):
+        w = World([])
+        m = w.m
+        a, b, c = (m.Unit.define(m.Length, n, n) for n in ("ra", "rb", "rc"))
+        a.equals(num(case["types"][0], case["restate"]) * b)
+        mag = convgen.mag_value(case["mag"])
+        if query_between:
+            (3 * a).in_unit(b)
+            (mag * b).in_unit(a)
+            (2 * a) == (2 * b)
+        a.equals(num(case["types"][1], case["restate"]) * b)
+        if case.get("unrelated_after") and query_between:
+            (5 * a).in_unit(b)
+        res = []
+        for src, dst in ((a, b), (b, a)):
+            q = mag * src
+            try:
+                if case["kind"] == "in_unit":
+                    r = q.in_unit(dst)
+                elif case["kind"] == "add":
+                    r = (1 * dst) + q
+                else:
+                    r = (m.Measurement(1 * dst, 0.5) + m.Measurement(q, 0.25)).measurand
+                res.append((type(r.magnitude).__name__, repr(r.magnitude)))
+            except Exception as e:  # noqa
+                res.append(("exc", type(e).__name__))
+        return res
+
+    try:
+        ra, rb = history(True), history(False)
+    finally:
+        from ..world import shared_world
+        shared_world()
+    out.classes.append("restated-equivalence")
+    out.classes.append("redeclaration")
+    if ra != rb:
+        out.fail("C08:history-dependence:restated", f"{case['restate']} stated as {case['types'][0]} and again as {case['types'][1]}: with conversions in between the final queries give {ra}, the same declarations alone give {rb} ({case['kind']}, magnitude {case['mag']})")
+    out.nontrivial = core.case_hash(case)
+    out.sample = {"restated": case["restate"], "types": case["types"], "outcome": rb}
+
+
 def run_case(case) -> core.Outcome:
     out = core.Outcome()
+    if isinstance(case, dict) and "restate" in case:
+        try:
+            _run_restated(case, out)
+        except (KeyError, ValueError, TypeError, IndexError):
+            out.invalid = True
+        return out
     try:
         spec, steps, final = case["world"], case["steps"], case["final"]
         if not synth.valid_spec(spec) or not isinstance(steps, list) or not isinstance(final, dict):
